@@ -178,6 +178,12 @@ func (tdsChan *Channel) Close() error {
 	tdsChan.Lock()
 	defer tdsChan.Unlock()
 
+	if tdsChan.closed {
+		// The channel has been closed before, its package and error
+		// channels are gone.
+		return multierror.Append(me, ErrChannelClosed)
+	}
+
 	tdsChan.closed = true
 
 	// Channel closing has been communicated, remove channel from conn
